@@ -306,6 +306,102 @@ theorem remove_restores_error (F : Funs) (ρ : Env Rat) (f : Expr) (e1 e2 : Sym)
   rw [h.1, h.2.1, h.2.2.1, h1, h2]
   exact ⟨by rw [d.2.2.2.1], by rw [d.2.2.2.2.1], by rw [d.2.2.2.2.2]⟩
 
+/-! ## IIV on RUV, time-varying error -/
+
+/-- `set_iiv_on_ruv`: evaluating the rewritten expression is evaluating the original one with **every** selected
+    epsilon multiplied by `exp` of its eta — all expressions, all lists of (epsilon, eta) pairs. -/
+theorem iiv_on_ruv_shape (F : Funs) : ∀ (ps : List (Sym × Sym)) (y : Expr) (ρ : Env Rat), PairsOk ps →
+    ev F ρ (iivOnRuv y ps) = ev F (scaleEnv F ρ ps) y := by
+  intro ps
+  induction ps with
+  | nil => intro y ρ _; rfl
+  | cons p t ih =>
+    obtain ⟨e, η⟩ := p
+    intro y ρ hok
+    obtain ⟨he, hη, ht⟩ := hok
+    simp only [iivOnRuv]
+    rw [ih _ ρ ht]
+    simp only [ev]
+    rw [eval_subst1]
+    congr 1
+    funext s
+    have hfac : Expr.eval (interp F) (scaleEnv F ρ t) (iivFactor e η) = ρ e * F.exp (ρ η) := by
+      simp [iivFactor, inst, Gen.iivOnRuv, Expr.subst, List.lookup, Expr.eval, interp, interpFn, scaleEnv, he, hη]
+    rw [hfac]
+    by_cases hs : s = e
+    · subst hs; simp [Env.set, scaleEnv, List.lookup]
+    · have : (s == e) = false := by simpa using hs
+      simp [Env.set, scaleEnv, List.lookup, hs, this]
+
+/-- … hence the model function is unchanged when all new etas are 0. -/
+theorem iiv_on_ruv_neutral (F : Funs) (hexp : F.exp 0 = 1) (ps : List (Sym × Sym)) (y : Expr) (ρ : Env Rat)
+    (hok : PairsOk ps) (h0 : ∀ η ∈ ps.map Prod.snd, ρ η = 0) :
+    ev F ρ (iivOnRuv y ps) = ev F ρ y := by
+  rw [iiv_on_ruv_shape F ps y ρ hok]
+  congr 1
+  funext s
+  simp only [scaleEnv]
+  cases hl : ps.lookup s with
+  | none => rfl
+  | some η =>
+    have := h0 η (lookup_mem_snd ps s η hl)
+    simp [this, hexp]
+
+/-- On a combined error model **both** terms are scaled: `Y = f + f·ε₁·e^{η₁} + ε₂·e^{η₂}`
+    (with `same_eta` the two etas are the same symbol). -/
+theorem iiv_on_ruv_combined (F : Funs) (ρ : Env Rat) (f : Expr) (e1 e2 η1 η2 : Sym) (y : Expr)
+    (hy : errorY "combined" f f e1 e2 = some y) (hne : e1 ≠ e2)
+    (hη : η1 ≠ e1 ∧ η1 ≠ e2 ∧ η2 ≠ e1 ∧ η2 ≠ e2) (hf : e1 ∉ f.syms ∧ e2 ∉ f.syms) :
+    ev F ρ (iivOnRuv y [(e1, η1), (e2, η2)])
+      = Doc.errCombined (ev F ρ f) (ρ e1 * F.exp (ρ η1)) (ρ e2 * F.exp (ρ η2)) := by
+  have hb : ∀ a b : Sym, a ≠ b → (a == b) = false := fun a b h => by simpa using h
+  have hok : PairsOk [(e1, η1), (e2, η2)] := by
+    simp [PairsOk, List.lookup, hb e1 e2 hne, hb η1 e2 hη.2.1]
+  rw [iiv_on_ruv_shape F _ y ρ hok]
+  have hs := (error_model_shape F (scaleEnv F ρ [(e1, η1), (e2, η2)]) f f e1 e2).2.2.1
+  rw [hy] at hs
+  simp only [Option.map_some, Option.some.injEq] at hs
+  rw [hs]
+  have hfe : ev F (scaleEnv F ρ [(e1, η1), (e2, η2)]) f = ev F ρ f := by
+    apply eval_congr
+    intro s hs'
+    have h1 : s ≠ e1 := fun h => hf.1 (h ▸ hs')
+    have h2 : s ≠ e2 := fun h => hf.2 (h ▸ hs')
+    simp [scaleEnv, List.lookup, hb s e1 h1, hb s e2 h2]
+  rw [hfe]
+  simp [scaleEnv, List.lookup, hb e2 e1 (Ne.symm hne)]
+
+/-- `set_time_varying_error_model`: before the cutoff every epsilon is multiplied by theta, after it `Y` is unchanged
+    (all expressions, all epsilon lists without repeats that do not contain theta). -/
+theorem time_varying_shape (F : Funs) (theta : Sym) : ∀ (es : List Sym) (y : Expr) (ρ : Env Rat),
+    es.Nodup → theta ∉ es →
+    ev F ρ (tvScaled theta y es) = ev F (fun s => if s ∈ es then ρ s * ρ theta else ρ s) y := by
+  intro es
+  induction es with
+  | nil => intro y ρ _ _; simp [tvScaled]
+  | cons e t ih =>
+    intro y ρ hnd hth
+    have hnd' := (List.nodup_cons.mp hnd)
+    have hth' : theta ∉ t := fun h => hth (List.mem_cons_of_mem _ h)
+    have hte : theta ≠ e := fun h => hth (by simp [h])
+    simp only [tvScaled]
+    rw [ih _ ρ hnd'.2 hth']
+    simp only [ev]
+    rw [eval_subst1]
+    congr 1
+    funext s
+    have hfac : Expr.eval (interp F) (fun s => if s ∈ t then ρ s * ρ theta else ρ s) (tvFactor e theta) = ρ e * ρ theta := by
+      simp [tvFactor, inst, Gen.timeVarying, Expr.subst, List.lookup, Expr.eval, interp, interpFn, hnd'.1, hth']
+    rw [hfac]
+    by_cases hs : s = e
+    · subst hs; simp [Env.set]
+    · simp [Env.set, hs]
+
+theorem time_varying_after_cutoff (F : Funs) (ρ : Env Rat) (y cond : Expr) (es : List Sym) (theta : Sym)
+    (hc : ev F ρ cond = 0) : ev F ρ (timeVarying y es theta cond) = ev F ρ y := by
+  simp only [ev, interp] at hc
+  simp [timeVarying, ev, Expr.eval, interp, interpFn, hc]
+
 /-! ## Allometry -/
 
 theorem allometry_matches_doc (F : Funs) (ρ : Env Rat) (p theta : Sym) (x z : Expr) :
